@@ -67,8 +67,20 @@ def check(ctx):
     if len(mh) == 1:
         call = mh[0]
         corr = kw(call, "log_correction", 4)
-        ctx.ob("C06.R1", st, "no log-correction is passed (symmetric proposal)",
-               corr is None or corr in (c(0.0), c(0)), detail=short(corr or ()),
+        if corr is None:
+            # the default of mh_step's parameter is what the symmetric kernels rely on
+            mhf = repo.func(MH)
+            a = mhf.node.args
+            pos_args = a.posonlyargs + a.args
+            dflt = dict(zip([x.arg for x in pos_args][len(pos_args) - len(a.defaults):],
+                            a.defaults))
+            dflt.update({k.arg: d for k, d in zip(a.kwonlyargs, a.kw_defaults) if d is not None})
+            d = dflt.get("log_correction")
+            corr = c(d.value) if isinstance(d, ast.Constant) else (
+                ("opaque", ast.unparse(d)) if d is not None else None)
+        ctx.ob("C06.R1", st, "the log-correction RW hands to mh_step (explicitly or through "
+                             "mh_step's default) is zero (symmetric proposal)",
+               corr in (c(0.0), c(0)), detail=short(corr or ()),
                stmt="rw correction " + pretty(corr or ()))
         prop = kw(call, "proposal", 2)
         pos = ("call", ("a", SELF, "position"), (MS,), ())
